@@ -142,6 +142,12 @@ class SDateTime:
         self.year, self.month, self.day, self.hour, self.minute, self.second, self.microsecond = vals
         self.tzinfo = tzinfo
 
+    def __getattr__(self, name):
+        # anything else of the datetime API (astimezone, replace, timestamp, ...) is outside the model: inconclusive, never a pass
+        if name.startswith("__"):
+            raise AttributeError(name)
+        raise EngineLimit(f"datetime.{name} is not modelled")
+
 
 fake_datetime_module = types.SimpleNamespace(datetime=SDateTime, timezone=STimezone, timedelta=STimedelta)
 
